@@ -30,18 +30,16 @@ theorem resolve_lt (g : Gram) (hwf : GWF g) : ∀ (fuel a : Nat), a < g.size →
       exact resolve_lt g hwf fuel d (this d (by simp))
     · exact h
 
-theorem zip_range_all (cs : List Nat) (P : Nat → Nat → Bool) (h : ∀ c ∈ cs, P c c = true) :
-    (cs.zip (List.range cs.length)).all (fun (ci : Nat × Nat) => P ci.1 (cs.getD ci.2 0)) = true := by
-  rw [List.all_eq_true]
-  intro ci hci
-  obtain ⟨i, hi, he⟩ := List.mem_iff_getElem.mp hci
-  simp only [List.length_zip, List.length_range, Nat.min_self] at hi
-  rw [List.getElem_zip] at he
-  subst he
-  simp only [List.getElem_range]
-  have : cs.getD i 0 = cs[i] := by rw [List.getD_eq_getElem?_getD, List.getElem?_eq_getElem hi]; rfl
-  rw [this]
-  exact h _ (List.getElem_mem hi)
+theorem matchDFS_self (r : Nat → Nat → Bool) : ∀ (cs : List Nat), (∀ c ∈ cs, r c c = true) → matchDFS r cs cs = true
+  | [], _ => rfl
+  | x :: xs, h => by
+    unfold matchDFS
+    rw [List.any_eq_true]
+    refine ⟨x, List.mem_cons_self, ?_⟩
+    have hx : r x x = true := h x List.mem_cons_self
+    have he : (x :: xs).erase x = xs := by simp
+    rw [hx, he, Bool.true_and]
+    exact matchDFS_self r xs (fun c hc => h c (List.mem_cons_of_mem _ hc))
 
 theorem localOk_diag (g : Gram) (hwf : GWF g) (r : Rel) (hd : Diag g r) (a : Nat) (ha : a < g.size) :
     localOk g g r a a = true := by
@@ -53,11 +51,11 @@ theorem localOk_diag (g : Gram) (hwf : GWF g) (r : Rel) (hd : Diag g r) (a : Nat
   cases rule with
   | atom s => simp
   | union cs =>
-    simp only [beq_self_eq_true, Bool.true_and, List.any_eq_true]
-    exact ⟨List.range cs.length, self_mem_perms _, zip_range_all cs (fun x y => r.get x y) (fun c hc => hd c (hw c hc))⟩
+    simp only [beq_self_eq_true, Bool.true_and]
+    exact matchDFS_self (fun x y => r.get x y) cs (fun c hc => hd c (hw c hc))
   | prod cs =>
-    simp only [beq_self_eq_true, Bool.true_and, List.any_eq_true]
-    exact ⟨List.range cs.length, self_mem_perms _, zip_range_all cs (fun x y => r.get x y) (fun c hc => hd c (hw c hc))⟩
+    simp only [beq_self_eq_true, Bool.true_and]
+    exact matchDFS_self (fun x y => r.get x y) cs (fun c hc => hd c (hw c hc))
 
 theorem refine_get (g1 g2 : Gram) (r : Rel) (a b : Nat) (ha : a < g1.size) (hb : b < g2.size) :
     (refine g1 g2 r).get a b = (r.get a b && localOk g1 g2 r a b) := by
